@@ -83,6 +83,13 @@ def case(ctx):
     if num == "int":
         center = (round(center[0]), round(center[1]))
     spec, info = G.random_shape(rng, kind, num, curved, center, size)
+    if curved and kind in "SU" and rng.random() < 0.25:
+        # curved boundary with exact rational control points
+        maker = rng.choice([G.random_blob, G.random_bulged_rect, G.random_lens])
+        kw = {"num": "frac", "cw": kind == "U"}
+        if maker is G.random_blob:
+            kw.update(degree=rng.choice([2, 3]))
+        spec, info = maker(rng, (round(center[0]), round(center[1])), max(size, 4.0), **kw)
     case = Case(ctx, {"shape": spec}, "%s-%s-%s" % (kind, "curved" if G.spec_is_curved(spec) else "straight", G.spec_num(spec)))
     shape = G.build(spec)
     region = S.snap_shape(shape)
